@@ -2,7 +2,7 @@
    Statements only; proofs in Proofs/EditProofs.v.  The model of construction is
    [Wire.HeaderEdit.build] followed by the specification encoder; the
    DBusTypeWriter is tied to it byte-for-byte by the correspondence run. *)
-From DV Require Import Lib.Base Spec.Codec Wire.HeaderEdit Proofs.EditProofs.
+From DV Require Import Lib.Base Spec.Codec Wire.HeaderEdit Proofs.EditProofs Proofs.CodecWf Proofs.CodecRoundtrip.
 Local Open Scope N_scope.
 
 (* Full statement: the encoder/decoder round trip, not yet a theorem (decided
@@ -40,6 +40,31 @@ Theorem C02_copy : forall m,
   s_type (copy_msg m) = s_type m /\ s_flags (copy_msg m) = s_flags m /\ s_le (copy_msg m) = s_le m.
 Proof. exact copy_equal_serial0. Qed.
 Print Assumptions C02_copy.
+
+(* THE ROUND TRIP, value level: for every byte order, position, nesting depth and
+   trailing bytes, decoding the canonical encoding of a well-formed value (numbers
+   in range, booleans 0/1, valid strings/paths/signatures, arrays of one element
+   type within 2^26 bytes, non-empty structs, dict entries with basic keys,
+   variants whose contained type's signature prints and parses back; nesting <= 64)
+   yields exactly that value, the exact end position and the untouched rest. *)
+Theorem C02_value_roundtrip : forall le v d depth pos rest,
+  wfb le depth pos v = true -> (height v < d)%nat ->
+  dec le d (ty_of_val v) depth pos (enc le v pos ++ rest) = Some (v, pos + nlen (enc le v pos), rest).
+Proof. intros le v. exact (dec_enc le v). Qed.
+Print Assumptions C02_value_roundtrip.
+
+(* ... and for a whole body (sequence of top-level values) with the decoder's own fuel *)
+Theorem C02_body_roundtrip : forall le vs pos rest, wfsb le vs 0 pos = true ->
+  dec_seq le (map ty_of_val vs) pos (encs le vs pos ++ rest) = Some (vs, pos + nlen (encs le vs pos), rest).
+Proof. exact dec_seq_encs. Qed.
+Print Assumptions C02_body_roundtrip.
+
+(* non-vacuity of the well-formedness premise: containers, variants, both byte orders *)
+Definition ex_val : val :=
+  VStruct [VNum 121 5; VArr (TDict 115 TVariant) [VDictE (VStr 115 [107]) (VVar (TArray (TBasic 105)) (VArr (TBasic 105) [VNum 105 1; VNum 105 2]))];
+           VStr 111 [47; 97]; VNum 100 4609434218613702656].
+Example ex_val_wf_le : wfb true 0 3 ex_val = true. Proof. vm_compute. reflexivity. Qed.
+Example ex_val_wf_be : wfb false 0 3 ex_val = true. Proof. vm_compute. reflexivity. Qed.
 
 (* non-vacuity: a concrete built message round-trips through the specification decoder *)
 Definition ex_built : smsg :=
